@@ -98,5 +98,6 @@ def run(ctx):
     ctx.guarded("C02.occur", lambda c: cv.occur_rule(c, "C02", "cbor"))
     ctx.guarded("C02.ctrlarms", lambda c: cv.arms_rule(c, "C02", "cbor"))
     ctx.guarded("C02.root", lambda c: cv.root_rule(c, "C02", "cbor"))
+    ctx.guarded("C02.ctrlrestore", lambda c: cv.ctrlrestore_rule(c, "C02", "cbor"))
     ctx.guarded("C02.width", width_rule)
     ctx.guarded("C02.major", major_rule)
